@@ -76,6 +76,13 @@ RULE = (
     'examples (hypcluster) / a clipped client (mimelite); ignore_grads: >=1 '
     'ignored and >=1 trainable leaf and >=2 steps. distinct = distinct '
     'canonical case JSON.')
+RULE += (
+    ' '
+    'Later widenings: APFL evaluation between rounds; MimeLite clip bounds 0 and 2^-30 and cl'
+    'ients whose update norm overflows float32 (the divergence guard runs after the bound che'
+    'ck); agnostic states carried over with another window length; HypCluster with a regulari'
+    'zer and on the pmap backend; ignore_grads_haiku over optimizers with weight decay and wi'
+    'th frozen entries held as float64 / int64 / float16 host arrays.')
 ASSUMPTIONS = [
     'dynamics are bounded by construction: |x_j|<=1/4 and the bias enters with '
     'factor 1/2, so the mean Hessian has norm <= 3/4 and every step size in the '
